@@ -85,7 +85,7 @@ def run(ctx):
         for s in range(0, 256, 1):
             for e in range(s, 256, 3):
                 for mode in ('s', 'a', 'c'):
-                    cases.append({'kn': 1, 's': s, 'e': e, 'mode': mode, 'chunk': 3 if mode == 'c' else 0, 'N': 4, 'maxT': 1 << 31,
+                    cases.append({'kn': 1, 's': s, 'e': e, 'mode': mode, 'chunk': 3 if mode == 'c' else 0, 'N': 4, 'maxT': (1 << 31) - 1,
                                   'minItems': 1, 'g': 1 + (s % 5), 'wait': (s + e) % 2, 'rdv': 0, 'reuse': 0})
     results = pf_common.run_pf_cases(exe, cases)
     verd = pf_common.judge_pf(ctx, 'cases', 'judge_c12', cases, results, l3)
